@@ -34,6 +34,7 @@ BYTES = Prim('bytes')
 FLOAT = Prim('float')
 NONE = Prim('none')
 VAL = Prim('val')
+REAL = Prim('real')        # mathematical real (only in lemmas about quantisation, C03)
 ANYFUNC = Prim('func')     # python-level callable, never stored in the heap
 
 
@@ -110,6 +111,8 @@ def sort_of(ty):
         return z3.StringSort()
     if ty == FLOAT:
         return Fl
+    if isinstance(ty, Prim) and ty.name == 'real':
+        return z3.RealSort()
     if ty == VAL:
         return Val
     if ty == NONE:
@@ -143,6 +146,8 @@ def sort_key(ty):
         return 'S'
     if ty == FLOAT:
         return 'F'
+    if isinstance(ty, Prim) and ty.name == 'real':
+        return 'Q'
     if ty == VAL:
         return 'V'
     if ty == NONE:
